@@ -321,7 +321,7 @@ func pkgRootOf(p, sub string) string {
 
 func TestPropComplete(t *testing.T) {
 	ev.Check(t, subComplete, func(t *rapid.T) world.World {
-		return world.Gen(t, world.Config{MaxRemotes: 4, MaxRegistry: 3, NFinders: nFinders, Clones: true, Meta: true, OddSubPaths: true, Twins: false, EmptyDirClones: true})
+		return world.Gen(t, world.Config{MaxRemotes: 4, MaxRegistry: 3, NFinders: nFinders, Clones: true, Meta: true, OddSubPaths: true, Twins: false, EmptyDirClones: true, Diags: true})
 	})
 }
 
